@@ -111,6 +111,10 @@ func TestSim(t *testing.T) {
 			n := runtime.Stack(buf, true)
 			os.Stderr.Write(buf[:n])
 		}
+		raceHarness := ""
+		if raceBuild {
+			raceHarness = collectRaces()
+		}
 		res := worlds.Result{
 			Scenario: plan.Scenario, Seed: plan.Seed, PlanHash: plan.Hash(), TraceHash: simrt.TraceHash(),
 			SimTime: simrt.Now().Seconds(), Events: simrt.Seq(), SchedDraws: simrt.SchedDraws(),
@@ -123,6 +127,9 @@ func TestSim(t *testing.T) {
 		}
 		if simrt.UntouchedAmbiguous > 0 {
 			res.HarnessErr = fmt.Sprintf("map iteration met %d ambiguous untouched pointer key sets: %v", simrt.UntouchedAmbiguous, simrt.UntouchedSites)
+		}
+		if raceHarness != "" && res.HarnessErr == "" {
+			res.HarnessErr = raceHarness
 		}
 		if len(res.Violations) > 0 || os.Getenv("SIM_LOGTAIL") != "" {
 			res.LogTail = simrt.LogTail(300)
